@@ -134,9 +134,9 @@ func sign(c int) int {
 
 func runC04(c *mon.Ctx) {
 	r := c.Rng
-	nStr := c.Share(c.Scale(240_000, 8_000_000))
-	nPair := c.Share(c.Scale(1_000_000, 40_000_000))
-	nTriple := c.Share(c.Scale(300_000, 12_000_000))
+	nStr := c.Share(c.Scale(240_000, 32_000_000))
+	nPair := c.Share(c.Scale(1_000_000, 160_000_000))
+	nTriple := c.Share(c.Scale(300_000, 48_000_000))
 
 	checkString := func(id, v string) {
 		if !c.Want(id) {
@@ -306,7 +306,7 @@ func runC04(c *mon.Ctx) {
 	}
 
 	// Sort: permutation ordered by (Compare, string).
-	nSort := c.Scale(40, 600)
+	nSort := c.Scale(40, 2400)
 	for i := 0; i < c.Share(nSort); i++ {
 		id := fmt.Sprintf("sort%d", i)
 		n := 2 + r.IntN(300)
